@@ -214,3 +214,7 @@ func itoaV(c int) string {
 	}
 	return s
 }
+
+// VerifNewSticky returns a fresh instance of the sticky strategy (BalanceStrategySticky is a shared singleton whose
+// movement bookkeeping would be shared with a Plan call the harness has given up waiting for).
+func VerifNewSticky() BalanceStrategy { return &stickyBalanceStrategy{} }
